@@ -104,6 +104,7 @@ bool OnlineAverage::isAvailable()const
 void OnlineAverage::reset()
 {
   std::lock_guard<std::mutex> lock(mutex_);
+  index_ = 0;
   data_.clear();
   sumOfData_ = 0;
   average_ = std::numeric_limits<double>::quiet_NaN();
